@@ -145,4 +145,65 @@ def self_gate():
     # a toy curve: y^2 = x^3 + 5x + 1 over F_23 has order 31? brute force agrees with Hasse
     N = len(points(23, 5, 1)) + 1
     assert abs(N - 24) <= 2 * 23**0.5
-    return 4
+    return 4 + self_gate_fast()
+
+
+def mul_fast(m, Pt, p, a):
+    """Same function as mul(), computed in Jacobian coordinates (one inversion at the end):
+    for 256-bit curves, where the affine ladder's inversion per step dominates.  Textbook formulas
+    (dbl-2007-bl / add-2007-bl simplified), gated against mul() in self_gate_fast()."""
+    if Pt is None or m == 0:
+        return None
+    if m < 0:
+        return mul_fast(-m, neg(Pt, p), p, a)
+
+    def dbl(X, Y, Z):
+        if Y == 0 or Z == 0:
+            return (0, 1, 0)
+        S = 4 * X * Y * Y % p
+        M = (3 * X * X + a * pow(Z, 4, p)) % p
+        X3 = (M * M - 2 * S) % p
+        Y3 = (M * (S - X3) - 8 * pow(Y, 4, p)) % p
+        return X3, Y3, 2 * Y * Z % p
+
+    def addj(X1, Y1, Z1, x2, y2):  # mixed addition with an affine point
+        if Z1 == 0:
+            return x2, y2, 1
+        Z1Z1 = Z1 * Z1 % p
+        U2 = x2 * Z1Z1 % p
+        S2 = y2 * Z1 * Z1Z1 % p
+        if U2 == X1:
+            if S2 != Y1:
+                return (0, 1, 0)
+            return dbl(X1, Y1, Z1)
+        H = (U2 - X1) % p
+        Rr = (S2 - Y1) % p
+        H2 = H * H % p
+        H3 = H * H2 % p
+        X3 = (Rr * Rr - H3 - 2 * X1 * H2) % p
+        Y3 = (Rr * (X1 * H2 - X3) - Y1 * H3) % p
+        return X3, Y3, Z1 * H % p
+
+    X, Y, Z = 0, 1, 0
+    for bit in bin(m)[2:]:
+        X, Y, Z = dbl(X, Y, Z)
+        if bit == "1":
+            X, Y, Z = addj(X, Y, Z, Pt[0], Pt[1])
+    if Z == 0:
+        return None
+    zi = pow(Z, -1, p)
+    return X * zi * zi % p, Y * zi * zi * zi % p
+
+
+def self_gate_fast():
+    p = 2**256 - 2**32 - 977
+    G = (0x79BE667EF9DCBBAC55A06295CE870B07029BFCDB2DCE28D959F2815B16F81798,
+         0x483ADA7726A3C4655DA4FBFC0E1108A8FD17B448A68554199C47D08FFB10D4B8)
+    n = 0xFFFFFFFFFFFFFFFFFFFFFFFFFFFFFFFEBAAEDCE6AF48A03BBFD25E8CD0364141
+    for m in (1, 2, 3, 7, n - 1, n, n + 1, 2**255 + 12345, -5):
+        assert mul_fast(m, G, p, 0) == mul(m, G, p, 0), m
+    for (pp, a, b) in ((23, 5, 1), (13, 2, 3), (31, 0, 7)):
+        for Pt in points(pp, a, b):
+            for m in range(0, 40):
+                assert mul_fast(m, Pt, pp, a) == mul(m, Pt, pp, a), (pp, a, b, Pt, m)
+    return 9
